@@ -88,7 +88,7 @@ theorem series_ratio_lt_one {a x : ℝ} (ha : 0 < a) (hs : x ≤ 1 ∨ x ≤ a) 
     So the relative error of the branch is the error of the Lanczos `ln_gamma` (in the exponent) times a
     truncation factor within `1e-15 · x/(a+N+1−x)` of 1. -/
 theorem gamma_lr_series_accuracy (a x : ℝ) (ha : (0.0000000000000011102230246251565 : ℝ) < a)
-    (hx : (0.0000000000000011102230246251565 : ℝ) < x)
+    (hx : 0 < x)
     (hu : -(709.78271289338399 : ℝ) ≤ a * Real.log x - x - F.gamma.ln_gamma a)
     (hs : x ≤ 1 ∨ x ≤ a) (hfuel : stopIdx a x 1e-15 ≤ loopFuel) :
     F.gamma.checked_gamma_lr a x =
@@ -98,7 +98,7 @@ theorem gamma_lr_series_accuracy (a x : ℝ) (ha : (0.00000000000000111022302462
       ≤ psum a x (stopIdx a x 1e-15) / ∑' n, term a x n ∧
     psum a x (stopIdx a x 1e-15) / ∑' n, term a x n ≤ 1 := by
   have ha0 : (0 : ℝ) < a := lt_trans (by norm_num) ha
-  have hx0 : (0 : ℝ) < x := lt_trans (by norm_num) hx
+  have hx0 : (0 : ℝ) < x := hx
   set N := stopIdx a x 1e-15 with hNdef
   have hspec := stopIdx_spec ha0.le hx0 (by norm_num : (0 : ℝ) < 1e-15)
   refine ⟨?_, gamma_series_trunc_bounds ha0 hx0 N (series_ratio_lt_one ha0 hs N) hspec.2⟩
@@ -116,7 +116,7 @@ theorem gamma_lr_series_accuracy (a x : ℝ) (ha : (0.00000000000000111022302462
     of the series branch.  The returned value `v` satisfies
       `exp(−η) · (1 − 1e-15·x/(a+N+1−x)) · P(a,x) ≤ v ≤ exp(η) · P(a,x)`. -/
 theorem gamma_lr_series_accuracy_rel (a x η : ℝ) (ha : (0.0000000000000011102230246251565 : ℝ) < a)
-    (hx : (0.0000000000000011102230246251565 : ℝ) < x)
+    (hx : 0 < x)
     (hu : -(709.78271289338399 : ℝ) ≤ a * Real.log x - x - F.gamma.ln_gamma a)
     (hs : x ≤ 1 ∨ x ≤ a) (hfuel : stopIdx a x 1e-15 ≤ loopFuel)
     (hη : |Real.log (Real.Gamma a) - F.gamma.ln_gamma a| ≤ η) :
@@ -124,7 +124,7 @@ theorem gamma_lr_series_accuracy_rel (a x η : ℝ) (ha : (0.0000000000000011102
       Real.exp (-η) * (1 - 1e-15 * (x / (a + ((stopIdx a x 1e-15 + 1 : ℕ) : ℝ) - x))) * gammaLrR a x ≤ v ∧
       v ≤ Real.exp η * gammaLrR a x := by
   have ha0 : (0 : ℝ) < a := lt_trans (by norm_num) ha
-  have hx0 : (0 : ℝ) < x := lt_trans (by norm_num) hx
+  have hx0 : (0 : ℝ) < x := hx
   obtain ⟨hv, hlo, hhi⟩ := gamma_lr_series_accuracy a x ha hx hu hs hfuel
   refine ⟨_, hv, ?_, ?_⟩
   all_goals
@@ -161,14 +161,14 @@ theorem gamma_lr_series_accuracy_rel (a x η : ℝ) (ha : (0.0000000000000011102
 /-- rel(`LG a = log Γ(a)`, i.e. an exact `ln_gamma`): then the series branch returns the true value minus the
     exact tail, `P(a,x) − P(a+N+1,x)`, `N = stopIdx a x 1e-15`: the only error left is the truncation. -/
 theorem gamma_lr_series_exact_rel (a x : ℝ) (ha : (0.0000000000000011102230246251565 : ℝ) < a)
-    (hx : (0.0000000000000011102230246251565 : ℝ) < x)
+    (hx : 0 < x)
     (hu : -(709.78271289338399 : ℝ) ≤ a * Real.log x - x - F.gamma.ln_gamma a)
     (hs : x ≤ 1 ∨ x ≤ a) (hfuel : stopIdx a x 1e-15 ≤ loopFuel)
     (hLG : F.gamma.ln_gamma a = Real.log (Real.Gamma a)) :
     F.gamma.checked_gamma_lr a x =
       .ok (gammaLrR a x - gammaLrR (a + ((stopIdx a x 1e-15 + 1 : ℕ) : ℝ)) x) := by
   have ha0 : (0 : ℝ) < a := lt_trans (by norm_num) ha
-  have hx0 : (0 : ℝ) < x := lt_trans (by norm_num) hx
+  have hx0 : (0 : ℝ) < x := hx
   rw [gamma_lr_series_value a x ha hx hu hs hfuel, ← gamma_series_remainder ha0 hx0, hLG]
   congr 1
   have hG := Real.Gamma_pos_of_pos ha0
@@ -196,14 +196,14 @@ theorem gamma_series_trunc_delta_le {a x eps : ℝ} (ha : 0 < a) (hx : 0 < x) (h
 /-- full(ℝ): the accuracy statement without a fuel hypothesis, for `a ≤ 2 847 142`, with an `N`-free bound for the
     truncation factor: `1 − 1e-15·max 1 (x/2) ≤ S_N/S_∞ ≤ 1`. -/
 theorem gamma_lr_series_accuracy_of_le (a x : ℝ) (ha : (0.0000000000000011102230246251565 : ℝ) < a)
-    (hx : (0.0000000000000011102230246251565 : ℝ) < x)
+    (hx : 0 < x)
     (hu : -(709.78271289338399 : ℝ) ≤ a * Real.log x - x - F.gamma.ln_gamma a)
     (hs : x ≤ 1 ∨ x ≤ a) (ha2 : a ≤ 2847142) :
     ∃ q : ℝ, F.gamma.checked_gamma_lr a x =
         .ok (gammaLrR a x * Real.exp (Real.log (Real.Gamma a) - F.gamma.ln_gamma a) * q) ∧
       1 - 1e-15 * max 1 (x / 2) ≤ q ∧ q ≤ 1 := by
   have ha0 : (0 : ℝ) < a := lt_trans (by norm_num) ha
-  have hx0 : (0 : ℝ) < x := lt_trans (by norm_num) hx
+  have hx0 : (0 : ℝ) < x := hx
   obtain ⟨hv, hlo, hhi⟩ := gamma_lr_series_accuracy a x ha hx hu hs (gamma_lr_series_fuel a x ha0 hx0 hs ha2)
   refine ⟨_, hv, le_trans ?_ hlo, hhi⟩
   have hN := (stopIdx_spec ha0.le hx0 (by norm_num : (0 : ℝ) < 1e-15)).1
